@@ -458,8 +458,10 @@ def finish(ctx):
     if ctx.broken:
         ev["coverage"]["no_longer_checks"] = [{"kind": b[0], "name": b[1]} for b in ctx.broken]
     ev["coverage"]["known_findings_seen"] = sorted(seen_known)
-    os.makedirs(os.path.join(VERIF, "evidence"), exist_ok=True)
-    json.dump(ev, open(os.path.join(VERIF, "evidence", ctx.pid + ".json"), "w"), indent=1, default=str)
+    # evidence/ only ever describes runs against /repo itself; runs against a scratch repo (VERIF_REPO) go to build/
+    evdir = os.path.join(VERIF, "evidence") if REPO == "/repo" else os.path.join(BUILD, "evidence")
+    os.makedirs(evdir, exist_ok=True)
+    json.dump(ev, open(os.path.join(evdir, ctx.pid + ".json"), "w"), indent=1, default=str)
     for l in lines:
         print(l, flush=True)
     return exit_code
